@@ -240,10 +240,10 @@ Print Assumptions c15_no_serialize_not_in_class.
 
 (** * Non-vacuity *)
 
-(** A contract that builds a three-entry map (keys 3, "\x09", 1 inserted in that order; the value
-    under 1 is the map itself, under 3 a byte string), notifies KEYS, stores the serialization of
-    VALUES' first element... : outside the finding class, with a non-trivial outcome (notifications,
-    a write, a returned array), identical under a non-identity schedule. *)
+(** A contract that builds a three-entry map (keys 3, "\x09", 1 inserted in that order; values a byte
+    string, 5 and an empty array), notifies KEYS, stores the serialization of the map under "k" and
+    returns VALUES: outside the finding class, with a non-trivial outcome (a notification in sorted
+    key order, a write, a returned array), identical under a non-identity schedule. *)
 Definition ex_prog : list instr :=
   [INewMap; IToAlt;
    IPushBytes [1; 2]; IDupFromAlt; ISwap; IPushInt 3; ISwap; ISetItem;
